@@ -38,6 +38,9 @@ func NewSolver(timeoutMs int, bin string, args ...string) *Solver {
 	}
 	s := &Solver{bin: bin, cmd: cmd, inc: in, in: bufio.NewWriterSize(in, 1<<16), out: bufio.NewReaderSize(out, 1<<16)}
 	s.Send("(set-option :print-success false)")
+	if strings.Contains(bin, "cvc5") {
+		s.Send("(set-logic ALL)")
+	}
 	if strings.Contains(bin, "z3") {
 		s.Send(fmt.Sprintf("(set-option :timeout %d)", timeoutMs))
 	}
@@ -120,10 +123,29 @@ func (s *Solver) GetValue(t string) string {
 		}
 		return ""
 	}
-	// ((t v)) -> v
+	// ((t v)) -> v: skip the first s-expression (the term as the solver
+	// prints it, which need not be the text that was sent), keep the second
+	r = strings.TrimSpace(r)
 	r = strings.TrimSuffix(strings.TrimPrefix(r, "(("), "))")
-	r = strings.TrimSpace(strings.TrimPrefix(r, t))
-	return r
+	depth, inBar, i := 0, false, 0
+	for i = 0; i < len(r); i++ {
+		c := r[i]
+		if c == '|' {
+			inBar = !inBar
+			continue
+		}
+		if inBar {
+			continue
+		}
+		if c == '(' {
+			depth++
+		} else if c == ')' {
+			depth--
+		} else if (c == ' ' || c == '\n' || c == '\t') && depth == 0 {
+			break
+		}
+	}
+	return strings.TrimSpace(r[i:])
 }
 
 func parenDepth(l string) int {
